@@ -569,6 +569,9 @@ class Surrogates(Cached):
         :return: the Pearson correlation test matrix.
         """
         (N, n_time) = original_data.shape
+        if surrogates.shape != original_data.shape:
+            raise ValueError("original_data and surrogates need to have "
+                             "the same shape!")
         return _test_pearson_correlation(to_cy(original_data, DFIELD),
                                          to_cy(surrogates, DFIELD),
                                          N, n_time)
@@ -599,6 +602,9 @@ class Surrogates(Cached):
         #  Calculate 2D histograms and mutual information
         #  mi[i,j] gives the mutual information between the ith original_data
         #  time series and the jth surrogate time series.
+        if surrogates.shape != original_data.shape:
+            raise ValueError("original_data and surrogates need to have "
+                             "the same shape!")
         return _test_mutual_information(to_cy(original_data, DFIELD),
                                         to_cy(surrogates, DFIELD),
                                         N, n_time, n_bins)
